@@ -152,6 +152,24 @@ def run(chk: Check, tier: str):
                     chk.violation(f"result-varies:{e['test']}", f"{e['test']}: normalised result differs between histories: {b} vs {norm} (order {order})",
                                   {"order": order, "first": repr(b), "now": repr(norm)})
             chk.sample({"order": order, "exitcodes": [x.exitcode for x in out.results]})
+        # the same histories under --early-exit (a test stops at its first counterexample: what it stops - solver
+        # processes, executors - is its own); verdicts only, the number of models legitimately differs
+        ee = [h for h in pick if len(h) >= 2 and any(e["result"] != "PASS" for e in h[:-1])]
+        for h in (ee if tier != "quick" else ee[:: max(1, len(ee) // 25)]):
+            order = [e["test"] for e in h]
+            sigs = [sig_of(t) for t in order]
+            out = run_contract(contract, others=others, funsigs=sigs, cli=("--invariant-depth", "1", "--early-exit"))
+            if out.exception or len(out.results) != len(sigs):
+                raise MachineryError(f"run_contract --early-exit {sigs}: {out.exception} {out.stdout[-400:]}")
+            chk.count("evaluations")
+            chk.count("traces_validated_against_impl")
+            chk.nontrivial(("early-exit",) + tuple(order))
+            for e, res in zip(h, out.results):
+                ok = res.exitcode == 0 if e["result"] == "PASS" else res.exitcode != 0
+                if not ok:
+                    chk.violation(f"order-dependent:early-exit:{'>'.join(order)}:{e['test']}",
+                                  f"tests run with --early-exit in the order {order}: {e['test']} ends with exit code {res.exitcode}, TestRun.tla says {e['result']}",
+                                  {"order": order, "halmos_output": (out.stdout + out.logs)[-1500:]})
         # determinism: the same selection twice in one process
         sigs = [sig_of(t) for t in ["read_storage", "write_code", "inv_a", "inv_b", "read_time"]]
         a = normalise(run_contract(contract, others=others, funsigs=sigs, cli=("--invariant-depth", "1")).results)
